@@ -1,6 +1,7 @@
 SPECIFICATION Spec16
 CONSTANTS
   MHBytes = {0, 1, 127, 128, 255}
+  MutCtx <- MutCtxAll
   MaxVal = 8
   ExportMode = "quick"
 INVARIANTS Inv16_Classes Inv16_MH
